@@ -854,6 +854,8 @@ builtinfunc(struct scope *s, enum builtinkind kind)
 		break;
 	case BUILTINOFFSETOF:
 		t = typename(s, NULL, NULL);
+		if (!t)
+			error(&tok.loc, "expected type name");
 		expect(TCOMMA, "after type name");
 		name = expect(TIDENT, "after ','");
 		if (t->kind != TYPESTRUCT && t->kind != TYPEUNION)
